@@ -18,7 +18,7 @@ ASSUMPTIONS = [
 NSHARDS = {"quick": 32, "thorough": 64}
 BUDGET_S = {"quick": 200, "thorough": 1500}
 MIN_HITS = {
-    'quick': {"exh2": 32768, "exh1": 128, "grammar_accepted": 3393, "trunc_case": 22242, "prefix": 51, "encode": 299, "tx_embed": 1203},
+    'quick': {"exh2": 32768, "exh1": 128, "grammar_accepted": 3393, "trunc_case": 22290, "prefix": 51, "encode": 300, "tx_embed": 1302},
     'thorough': {"exh2": 39321, "exh1": 153, "grammar_accepted": 279132, "trunc_case": 507809, "prefix": 61, "encode": 360, "tx_embed": 102633},
 }
 
